@@ -5,11 +5,13 @@ meta.json ("check_verdicts_now", "caught") and in seeded/MATRIX.md.  /repo is re
 import json, os, subprocess, sys, time
 V = "/verif"
 tier = "quick"
+vseeds = ["1"]
 ids = []
 a = sys.argv[1:]
 while a:
     x = a.pop(0)
     if x == "--tier": tier = a.pop(0)
+    elif x == "--seeds": vseeds = a.pop(0).split(",")
     else: ids.append(x)
 seeds = sorted(d for d in os.listdir(V + "/seeded") if os.path.isdir(V + "/seeded/" + d) and (not ids or d in ids))
 rows = []
@@ -24,17 +26,20 @@ for s in seeds:
     verdicts = {}
     try:
         for p in props:
-            t0 = time.time()
-            out = subprocess.run([V + "/check", p, "--tier", tier], capture_output=True, text=True, cwd=V).stdout
-            v = [l for l in out.splitlines() if l.startswith(("VIOLATION", "OK ", "HARNESS"))]
-            verdicts[p] = (v[-1][:160] if v else "no verdict") + " (%.0fs)" % (time.time() - t0)
+            for vs in vseeds:
+                t0 = time.time()
+                out = subprocess.run([V + "/check", p, "--tier", tier], capture_output=True, text=True, cwd=V, env=dict(os.environ, VERIF_SEED=vs)).stdout
+                v = [l for l in out.splitlines() if l.startswith(("VIOLATION", "OK ", "HARNESS"))]
+                verdicts[p if vs == vseeds[0] else "%s@seed%s" % (p, vs)] = (v[-1][:160] if v else "no verdict") + " (%.0fs)" % (time.time() - t0)
     finally:
         subprocess.run(["git", "-C", "/repo", "checkout", "--", "."])
-    caught = any(v.startswith("VIOLATION") for v in verdicts.values())
+    caught = all(v.startswith("VIOLATION") for v in verdicts.values()) if len(vseeds) > 1 else any(v.startswith("VIOLATION") for v in verdicts.values())
     witness = any(v.startswith("VIOLATION") and "no-failing-input-found" not in v for v in verdicts.values())
     meta["check_verdicts_now"] = verdicts; meta["caught"] = caught; meta["caught_with_failing_input"] = witness; meta["tier_run"] = tier
     json.dump(meta, open(d + "/meta.json", "w"), indent=1)
-    rows.append((s, meta["property"], "caught (failing input)" if witness else ("caught (correspondence/proof only)" if caught else "MISSED"), "; ".join("%s: %s" % kv for kv in verdicts.items())))
+    nv = sum(1 for v in verdicts.values() if v.startswith("VIOLATION"))
+    label = ("caught (failing input)" if witness else "caught (correspondence/proof only)") if caught else ("caught on %d of %d runs" % (nv, len(verdicts)) if nv else "MISSED")
+    rows.append((s, meta["property"], label, "; ".join("%s: %s" % kv for kv in verdicts.items())))
     print(rows[-1][0], rows[-1][2], flush=True)
 # rebuild the harness against the restored tree
 subprocess.run(["cargo", "build", "--release", "--offline"], cwd=V + "/harness", capture_output=True)
@@ -42,4 +47,4 @@ if not ids:
     with open(V + "/seeded/MATRIX.md", "w") as f:
         f.write("# Seeded changes vs checks (tier %s)\n\n| seed | property | verdict | detail |\n|---|---|---|---|\n" % tier)
         for r in rows: f.write("| %s | %s | %s | %s |\n" % (r[0], r[1], r[2], r[3].replace("|", "/")))
-print("caught %d / %d" % (sum(1 for r in rows if r[2].startswith("caught")), len(rows)))
+print("caught %d / %d" % (sum(1 for r in rows if r[2].startswith("caught (")), len(rows)))
